@@ -15,7 +15,7 @@ RULE = (
     "security weights aggregated by name and summing with all strategies' cash fractions to one, positions aggregated per ticker, transaction quantities cumulating to the aggregated "
     "positions and quantity x price x multiplier equal to the aggregated outlay per (date, ticker) (so the execution price incl. spread is pinned), turnover and Herfindahl by formula, "
     "Result prices == strategy prices. replay: the transaction list of a zero-commission run fed through ReplayTransactions into a fresh flat strategy reproduces aggregated positions "
-    "(1e-6) and root values (1e-9 relative) date by date. non-trivial = at least two trades (report) / a spread or a nested source tree (replay). distinct = distinct spec hashes."
+    "(1e-6) and root values (1e-9 relative) date by date. fi_report: fixed-income runs (positions come from transact and are fractional whatever the integer flag says): positions report == sum of same-named securities' positions, transactions cumulate to it, component weights == notional / root notional. non-trivial = at least two trades (report) / a spread or a nested source tree (replay). distinct = distinct spec hashes."
 )
 ASSUMPTIONS = [
     "replay uses pre-constructed Security children with the source multipliers and bidoffer tracking (what the repository's own replay tests do)",
@@ -337,10 +337,66 @@ def known_match(spec, v):
     return None
 
 
-SUBS = {"report": case_report, "replay": case_replay}
-STRATS = {"report": report_spec, "replay": replay_spec}
+def _fi_spec():
+    from . import c17
+
+    return c17.run_spec()
+
+
+def case_fi_report(ctx, spec):
+    """fixed-income runs (positions come from transact and are fractional whatever the integer flag says): the positions report is the
+    sum of the same-named securities' positions, the transaction list cumulates to it, component and security weights are notional over
+    the root's notional"""
+    bt = ctx.bt
+    base = {k: v for k, v in spec.items() if k not in ("kinds", "weights", "nested")}
+    try:
+        b = c10.run_backtest(bt, base)
+    except Exception as e:
+        raise Discard("run raised (C10/C17's business): %s" % type(e).__name__)
+    s = b.strategy
+    try:
+        pos = b.positions
+        ap = agg_by_name(bt, s, "positions")
+        if sorted(map(str, pos.columns)) != sorted(ap):
+            raise Violation("positions columns %s != %s" % (list(pos.columns), sorted(ap)), signature="c18:fi-pos-columns")
+        frac = False
+        for nm, v in ap.items():
+            got = np.asarray(pos[nm], dtype=float)
+            if not np.allclose(got, v, rtol=0, atol=1e-9 * max(1.0, np.abs(v).max())):
+                i = int(np.argmax(np.abs(got - v)))
+                raise Violation("positions[%s] row %d is %r, the securities of that name hold %r (integer_positions=%s)" % (nm, i, got[i], v[i], base.get("integer_positions")), signature="c18:fi-positions")
+            frac = frac or bool((np.abs(v - np.round(v)) > 1e-6).any())
+        if s.securities:
+            tx = s.get_transactions()
+            for nm, v in ap.items():
+                q = tx.xs(nm, level=1)["quantity"] if nm in tx.index.get_level_values(1) else None
+                cum = np.zeros(len(v))
+                if q is not None:
+                    for d_, x in q.items():
+                        cum[list(s.values.index).index(d_) :] += float(x)
+                if not np.allclose(cum, v, rtol=0, atol=1e-6 * max(1.0, np.abs(v).max())):
+                    i = int(np.argmax(np.abs(cum - v)))
+                    raise Violation("transactions of %s cumulate to %r on row %d, recorded position %r" % (nm, cum[i], i, v[i]), signature="c18:fi-transactions")
+        N = np.asarray(s.notional_values, dtype=float)
+        ok = np.abs(N) > 1e-9
+        w = b.weights
+        for m in s.members:
+            col = np.asarray(w[m.full_name], dtype=float)
+            exp = np.asarray(m.notional_values, dtype=float) / np.where(ok, N, 1.0)
+            if not np.allclose(col[ok], exp[ok], rtol=1e-12, atol=1e-12):
+                raise Violation("weights[%s] != notional / root notional for a fixed-income root" % m.full_name, signature="c18:fi-weights")
+    except (Violation, Discard):
+        raise
+    except Exception as e:
+        raise Violation("a report of a fixed-income run does not have the documented shape: %s: %s" % (type(e).__name__, str(e)[:200]), signature="c18:fi-shape:" + type(e).__name__)
+    return {"nontrivial": frac, "labels": ["fi"] + (["fractional_positions"] if frac else []) + (["integer_flag_set"] if base.get("integer_positions") else [])}
+
+
+SUBS = {"report": case_report, "replay": case_replay, "fi_report": case_fi_report}
+STRATS = {"report": report_spec, "replay": replay_spec, "fi_report": _fi_spec}
 
 
 def shard(ctx):
     run_sub(ctx, "report", report_spec(), lambda s: case_report(ctx, s), ctx.n(1000, 15000))
     run_sub(ctx, "replay", replay_spec(), lambda s: case_replay(ctx, s), ctx.n(640, 8000), known_match=known_match)
+    run_sub(ctx, "fi_report", _fi_spec(), lambda s: case_fi_report(ctx, s), ctx.n(600, 8000))
